@@ -311,7 +311,7 @@ func c16Structure(c *Ctx) {
 					ln := int64(-1)
 					for l := range ef {
 						bin, ok := l.V.(*ssa.BinOp)
-						if !ok || bin.Op != token.EQL || !l.Pol {
+						if !ok || !((bin.Op == token.EQL && l.Pol) || (bin.Op == token.NEQ && !l.Pol)) {
 							continue
 						}
 						if la := lenArg(bin.X); la != nil && la == serial {
